@@ -18,18 +18,21 @@ RULE = (
     "(a) operations run(A) nonparametric / run(B) gaussian / run(C) bootstrap with cross-validated lambda / run(D) nonparametric with the outlier models enabled, summary(), fresh-client, perturb-globals "
     "(advance numpy's and random's global generators, reorder warnings.filters, touch DEFAULT_AGGREGATES), with argument objects (baseline frame, feed "
     "frame, config dict, parameter dict, lists) shared between calls or copied: every history up to depth D (7+49+343 at D=3) explored breadth-first "
-    "per first operation; invariant: every run(X)/summary() returns tables bit-identical to the reference for X. (b) the references are reproduced in "
+    "per first operation; invariant: every run(X)/summary() returns tables bit-identical to the reference for X. (b) the references (plus run(E): gaussian on a single configured state, whose state has its own calibration model) are reproduced in "
     "fresh interpreters with PYTHONHASHSEED in {0,1,2,12345}, twice each, including the historical client, and must all agree. (c) changing the seed "
     "setting changes some cell for every estimator. non-trivial = the history contains at least two operations"
 )
 ASSUMPTIONS = ["process state is reset before each replay (numpy/random global state, warnings.filters, DEFAULT_AGGREGATES); truly fresh interpreters are covered by (b)"]
 OPS = ["run:A", "run:B", "run:C", "run:D", "summary", "fresh", "perturb"]
+# E is not a BFS operation (it would only widen the search); it is part of the interpreter matrix and the seed variation
 SELFCHECK_INDEX = 0
 
 ARGSETS = {
     "A": dict(pi_method="nonparametric", estimands=["turnout", "dem"], alphas=[0.7], aggregates=["postal_code", "county_fips", "unit"], features=[E.FEATURE], model_parameters={}),
     "B": dict(pi_method="gaussian", estimands=["turnout"], alphas=[0.7, 0.9], aggregates=["postal_code", "county_classification", "unit"], features=[], fixed_effects={"county_classification": ["all"]}, model_parameters={}),
     "C": dict(pi_method="bootstrap", estimands=["margin"], alphas=[0.9], aggregates=["postal_code", "unit"], features=["baseline_normalized_margin"], model_parameters={"B": 20}),
+    # E: gaussian on a single configured state, so that the state has its own calibration model (group-keyed computations)
+    "E": dict(pi_method="gaussian", estimands=["turnout"], alphas=[0.9], aggregates=["postal_code", "county_fips", "unit"], features=[], model_parameters={}, states=["AA"], big=True),
     # D: the public defaults for the outlier models (both enabled)
     "D": dict(pi_method="nonparametric", estimands=["turnout"], alphas=[0.7], aggregates=["postal_code", "unit"], features=[], model_parameters={"fit_margin_outlier_model": True, "fit_turnout_outlier_model": True}),
 }
@@ -83,6 +86,10 @@ def make_args(seed):
     baseline, feed = E.frames(units, cfg0)
     raw = E.raw_config(cfg0)
     args = {"baseline": baseline, "feed": feed, "raw_config": raw}
+    # a larger single-state election (60 reporting units, 18 calibration units) for argument set E: with a handful of
+    # calibration units a bootstrapped scale takes so few distinct values that it hides which random stream was used
+    big = E.background(seed + 1, "G", 66, "AA2", partial=6)
+    args["baseline_big"], args["feed_big"] = E.frames(big, cfg0)
     for name, a in ARGSETS.items():
         args[name] = copy.deepcopy(a)
     return args
@@ -90,6 +97,11 @@ def make_args(seed):
 
 def call_run(client, args, name, shared):
     a = args[name]
+    if "states" in a:
+        raw_for = E.raw_config(E.make_cfg(states=a["states"]))
+        args = dict(args, raw_config=raw_for)
+    if a.get("big"):
+        args = dict(args, baseline=args["baseline_big"], feed=args["feed_big"])
     if shared:
         baseline, feed, raw, est, alphas, aggs, feats, mp, fe = args["baseline"], args["feed"], args["raw_config"], a["estimands"], a["alphas"], a["aggregates"], a["features"], a["model_parameters"], a.get("fixed_effects", {})
     else:
